@@ -18,6 +18,7 @@ static void check_case(vg::Src& s, vh::Ctx& c)
     va::GridSpec sp = vg::gen_grid(s, o);
     vm::ModelGrid m = vm::build_model(sp);
     c.desc = vm::describe(sp) + (m.ctor_throws ? " => model: rejected (" + m.throw_reason + ")" : " => model: accepted");
+    c.announce();
     c.label(std::string("kind=") + (sp.kind == va::K_RASTER ? "raster" : sp.kind == va::K_PROFILE ? "profile" : "trimesh"));
     c.label(m.ctor_throws ? "rejected:" + m.throw_reason : "accepted");
 
